@@ -205,6 +205,15 @@ def out_of_table(srv, part, root, s):
                            {"input": [y, m, d], "scale": NAMES[s], "observed": fmtI(u), "expected": "nul instant",
                             "summary": "%s %04d-%02d-%02d lies outside the table but is mapped to Gregorian %s"
                             % (NAMES[s], y, m, d, fmtI(u))})
+    # ... and has no weekday either (0 = no day)
+    ans = srv.batch(["wday %d %d %d %d" % (s, y, m, d) for (y, m, d) in probes])
+    for (y, m, d), a in zip(probes, ans):
+        part.evaluations += 1
+        if int(a) != 0:
+            part.violation("%s/out-of-table/wday-not-rejected" % NAMES[s],
+                           {"input": [y, m, d], "scale": NAMES[s], "observed": int(a), "expected": 0,
+                            "summary": "%s %04d-%02d-%02d lies outside the table, cannot be converted, but is given weekday %s"
+                            % (NAMES[s], y, m, d, a)})
     # months outside the table have no length
     months = [(k // 12 + 1, k % 12 + 1) for k in list(range(lo_idx - 700, lo_idx)) + list(range(hi_idx, hi_idx + 700))]
     ans = srv.batch(["ndim %d %d %d" % (s, y, m) for (y, m) in months])
